@@ -58,12 +58,16 @@ class C23(Prop):
                   'with the Python classes only as far as the correspondence cases show.')
     budget = {'quick': 2500, 'thorough': 30000}
     search_budget = {'quick': 4000, 'thorough': 30000}
-    rule = ('case = (backend, blob bytes, delivery chunk size, op) with op = open_from(start, length|None) + read pattern '
+    rule = ('case = (backend, blob bytes, delivery chunk size, op[, GCS credential kind: anonymous / token / token expired on the first '
+            'attempt of every request]) with op = open_from(start, length|None) + read pattern '
             '(readexactly*, then read(n)*, then read(-1) or a drain loop), read_from(start) or read_range(start, end, inclusive); '
             'exhaustive over sizes 0..4 (quick) / 0..8 (thorough) x all offsets 0..size+1 x all lengths None,0..size+2 x a fixed pattern set '
             'x 4 backends, plus random cases up to size 12; compared: Range header / download_blob calls seen by the store, final status, '
             'concatenated bytes; non-trivial = at least one byte requested inside the blob; distinct by full case')
-    trusted = ['harness/props/c23_store.py: in-memory GCS (HTTP Range per RFC 7233, 404/416), S3 (get_object Range, InvalidRange, NoSuchKey) '
+    trusted = ['the GCS fake sits at the HTTP layer (stand-in for hailtop.httpx.ClientSession): the real Session, its auth-header merging and '
+               '401 -> refresh -> retry loop run between the file system and the fake, with AnonymousCloudCredentials and a token credential '
+               'stand-in (valid / expired-on-first-attempt)',
+               'harness/props/c23_store.py: in-memory GCS (HTTP Range per RFC 7233, 404/416), S3 (get_object Range, InvalidRange, NoSuchKey) '
                'and Azure (download_blob(offset,length), 416 for an explicit offset >= size, chunks()/readall()) services',
                'aiohttp.StreamReader (real, fed with the whole body before the first read)',
                'InlineExecutor replaces the FS thread pools (same calls, executed synchronously)',
@@ -79,7 +83,6 @@ class C23(Prop):
         import hailtop.aiocloud.aiogoogle.client.storage_client as gsc
         import hailtop.aiotools.local_fs as lfs
         from hailtop import httpx
-        from hailtop.aiocloud.common.session import BaseSession
         from hailtop.aiotools.fs.exceptions import UnexpectedEOFError
         self.lfs, self.gsc, self.s3fs, self.azfs = lfs, gsc, s3fs, azfs
         self.UnexpectedEOFError = UnexpectedEOFError
@@ -87,10 +90,19 @@ class C23(Prop):
         self.store = c23_store.Store()
         self.pool = InlineExecutor()
         asyncio.set_event_loop(self.loop)
-        # GCS: real GoogleStorageAsyncFS -> real GoogleStorageClient -> fake session
-        session = c23_store.make_gcs_session(self.store, BaseSession, httpx.ClientResponseError)
-        self.gs = gsc.GoogleStorageAsyncFS(storage_client=gsc.GoogleStorageClient(
-            gcs_requester_pays_configuration=('verif-project', []), session=session))   # explicit: skips the spark-defaults.conf lookup
+        # GCS: real GoogleStorageAsyncFS -> real GoogleStorageClient -> REAL Session (+ credentials) -> fake HTTP session.
+        # One file system per credential kind: anonymous (public-bucket fallback: no auth headers), a valid token, and a token
+        # that is expired on the first attempt of every request (401 -> new headers -> second attempt).
+        from hailtop.aiocloud.common.credentials import AnonymousCloudCredentials, CloudCredentials
+        from hailtop.aiocloud.common.session import Session
+        http = c23_store.make_gcs_http_session(self.store, httpx.ClientResponseError)
+        self.gs_creds = {'anon': AnonymousCloudCredentials(),
+                         'token': c23_store.make_token_credentials(CloudCredentials, refresh=False),
+                         'refresh': c23_store.make_token_credentials(CloudCredentials, refresh=True)}
+        self.gs_fs = {kind: gsc.GoogleStorageAsyncFS(storage_client=gsc.GoogleStorageClient(
+            gcs_requester_pays_configuration=('verif-project', []),          # explicit: skips the spark-defaults.conf lookup
+            session=Session(credentials=cred, http_session=http))) for kind, cred in self.gs_creds.items()}
+        self.gs = self.gs_fs['token']
         # S3: real S3AsyncFS with its boto3 client replaced
         self.s3 = s3fs.S3AsyncFS(thread_pool=self.pool)
         self.s3._s3 = c23_store.make_s3_client(self.store, s3fs.botocore.exceptions.ClientError)
@@ -102,6 +114,10 @@ class C23(Prop):
         self.az = azfs.AzureAsyncFS(credentials=Cred())
         self.local = lfs.LocalAsyncFS(thread_pool=self.pool)
         self.az_http_error = azfs.azure.core.exceptions.HttpResponseError
+        self.session_stats = {}
+
+    def extra_coverage(self):
+        return {'gcs_session_layer': dict(self.session_stats)}
 
     # ------------------------------------------------------------------------------------------ generation
     PATTERNS = [['a'], ['a', 'a'], ['d1'], ['d2'], ['d3'], ['x1', 'a'], ['x2', 'd2'], ['r1', 'a'], ['r2', 'd1'], ['x1', 'x2'], ['x3'],
@@ -160,23 +176,26 @@ class C23(Prop):
         end = rng.choice([start - 1, start, size - 1, size, size + 1, rng.randint(0, size + 2)])
         return {'be': be, 'blob': blob, 'chunk': chunk, 'kind': 'range', 'start': start, 'end': end, 'incl': rng.random() < 0.5}
 
-    @staticmethod
-    def _norm(c):
+    CREDS = ['anon', 'token', 'refresh']
+
+    def _norm(self, c, rng=None):
         if c['be'] == 'local':
             c['chunk'] = 0          # a real file never returns short: no delivery chunking to vary
+        if c['be'] == 'gs' and 'cred' not in c:
+            c['cred'] = rng.choice(self.CREDS) if rng is not None else 'token'
         return c
 
     def cases(self, rng, n, tier):
         for c in self._exhaustive(rng, 4 if tier == 'quick' else 8):
-            yield self._norm(c)
+            yield self._norm(c, rng)
         for _ in range(n):
-            yield self._norm(self._random_case(rng))
+            yield self._norm(self._random_case(rng), rng)
 
     def search_cases(self, rng, n, hint):
         for c in self._exhaustive(rng, 6):
-            yield self._norm(c)
+            yield self._norm(c, rng)
         for _ in range(n):
-            yield self._norm(self._random_case(rng))
+            yield self._norm(self._random_case(rng), rng)
 
     # ------------------------------------------------------------------------------------------ model side
     def model_lines(self, c):
@@ -233,6 +252,7 @@ class C23(Prop):
         store = self.store
         store.objects = {'obj': data}
         store.log = []
+        store.auth_seen = []
         store.chunk = c['chunk']
         scratch = None
         try:
@@ -244,7 +264,10 @@ class C23(Prop):
                     fh.write(data)
                 fs = self.local
             elif be == 'gs':
-                fs, url = self.gs, 'gs://bucket/obj'
+                cred = c.get('cred', 'token')
+                fs, url = self.gs_fs[cred], 'gs://bucket/obj'
+                if hasattr(self.gs_creds[cred], 'calls'):
+                    self.gs_creds[cred].calls = 0
             elif be == 's3':
                 fs, url = self.s3, 's3://bucket/obj'
             else:
@@ -265,6 +288,12 @@ class C23(Prop):
         finally:
             if scratch is not None:
                 shutil.rmtree(scratch, ignore_errors=True)
+        if be == 'gs':
+            seen = store.auth_seen
+            st = self.session_stats
+            st['gcs_requests_reaching_http_layer'] = st.get('gcs_requests_reaching_http_layer', 0) + len(seen)
+            st['answered_401_then_retried'] = st.get('answered_401_then_retried', 0) + sum(1 for a in seen if a == 'Bearer stale')
+            st['without_authorization_header'] = st.get('without_authorization_header', 0) + sum(1 for a in seen if a is None)
         hdrs = [str(e[2]) for e in store.log if e[0] in ('gcs-get', 's3-get')]
         dls = [f"{e[2]}:{'-' if e[3] is None else e[3]}" for e in store.log if e[0] == 'az-dl']
         return (';'.join(hdrs) if hdrs else '-', ';'.join(dls) if dls else '-', status, bytes(out), flags)
@@ -352,6 +381,8 @@ class C23(Prop):
         status, out, _ = self._parse_line(impl_out[0]) if not impl_out[0].startswith('IMPL-EXC') else ('exc', [], '')
         size = len(c['blob'])
         tags = [f"be={c['be']}", f"kind={c['kind']}", f'status={status}', f'size={min(size, 9)}{"+" if size > 9 else ""}']
+        if c['be'] == 'gs':
+            tags.append(f"gs-cred={c.get('cred', 'token')}")
         if c['kind'] == 'open':
             ln = c['len']
             tags.append('len=none' if ln is None else 'len=0' if ln == 0 else
